@@ -26,6 +26,14 @@ def prepare():
     os.makedirs(WORK, exist_ok=True)
     with open(os.path.join(WORK, "build.lock"), "w") as lk:
         fcntl.flock(lk, fcntl.LOCK_EX)
+        # scratch directories of runs that ended long ago (disk space is limited)
+        now = time.time()
+        for d in glob.glob(os.path.join(WORK, "run-*")) + glob.glob(os.path.join(WORK, "tmp", "*")):
+            try:
+                if now - os.path.getmtime(d) > 6 * 3600:
+                    shutil.rmtree(d, ignore_errors=True)
+            except OSError:
+                pass
         r = subprocess.run([sys.executable, os.path.join(VERIF, "bin", "gen.py")], capture_output=True, text=True)
         if r.returncode != 0:
             raise ToolError("gen.py failed: " + r.stdout + r.stderr)
